@@ -36,6 +36,8 @@ def spec_evaluator(world, label):
     fv.pre_env, fv.pre_heap = {}, fv.heap
     fv.feas_timeout = 2000
     fv.handlers = []
+    fv._nonneg, fv._nonneg_keep = set(), []
+    fv._fresh_ids, fv._entry_ids, fv._id_keep = set(), set(), []
     fv.where = lambda node: ""
     return fv
 
